@@ -118,6 +118,11 @@ def check(h):
                                 'sigkey': 'post:' + a['name'], 'sig': dict(sigbase, kind='post-outcome', frame=a['name'], okind=okind)})
                     break
 
+    # C04.c timers of finished transactions, inspected in the instant of every outcome
+    for tr in getattr(h, 'timer_residue', [])[:1]:
+        out.append({'clause': 'C04.c', 'detail': 'at t=%.3f (outcome at seq %d) the scheduler still holds the timer of a %s %s (peer %s, invoke %s), due in %.3fs'
+                    % (tr['t'], tr['seq'], tr['state'], tr['cls'], tr['peer'], tr['invoke'], tr['due_in']),
+                    'sigkey': 'timer-of-finished-transaction', 'sig': {'kind': 'timer-of-finished-transaction', 'cls': tr['cls'], 'state': tr['state']}})
     # C04.c residue at quiescence
     if h.result != 'quiescent':
         out.append({'clause': 'C04.c', 'detail': 'world not quiescent at horizon: heap still holds %r' % (h.heap_left,),
